@@ -204,6 +204,11 @@ func (r *rdbdriver) GetLocationByMap(ipnet *net.IPNet, mapID []byte, context Con
 	if len(foundVal) == 0 {
 		return nil, 0, nil // consistent with the return at the end of cdbdriver.go:/GetLocationByMap
 	}
+	if len(foundKey) != len(fullKey) || !bytes.Equal(foundKey[:6], fullKey[:6]) {
+		// the closest smaller key is not a range point of this map (the map has no subnets):
+		// no location, rather than whatever record happens to precede the map's key space
+		return nil, 0, nil
+	}
 	if len(foundVal) < 4 {
 		err = fmt.Errorf("short value: length %d, value %v, map %v", len(foundVal), foundVal, mapID)
 		return nil, 0, err
